@@ -111,18 +111,67 @@ var (
 
 var thrStarted bool
 
+// goroutine identity for ThreadID/Park (native): goroutine id -> index in Go order
+var (
+	thrIDs     sync.Map
+	thrSpawned int32
+	thrDone    int32
+	thrParked  int32
+)
+
 func resetThreads() {
 	thrStart = make(chan struct{})
 	thrStarted = false
 	thrPanic = ""
+	thrIDs = sync.Map{}
+	atomic.StoreInt32(&thrSpawned, 0)
+	atomic.StoreInt32(&thrDone, 0)
+	atomic.StoreInt32(&thrParked, 0)
+}
+
+func goid() string {
+	var buf [64]byte
+	n := runtime.Stack(buf[:], false)
+	f := strings.Fields(string(buf[:n]))
+	if len(f) >= 2 {
+		return f[1]
+	}
+	return ""
+}
+
+// ThreadID is 0 on the harness goroutine and k on the k-th goroutine started with Go.
+func ThreadID() int {
+	if v, ok := thrIDs.Load(goid()); ok {
+		return v.(int)
+	}
+	return 0
+}
+
+// Park holds the calling goroutine until every other goroutine started with Go
+// is finished or parked too - or, natively, until 50ms have passed (a goroutine
+// blocked inside the code under test cannot be observed from outside).
+func Park() {
+	atomic.AddInt32(&thrParked, 1)
+	deadline := time.Now().Add(50 * time.Millisecond)
+	for time.Now().Before(deadline) {
+		running := atomic.LoadInt32(&thrSpawned) - atomic.LoadInt32(&thrDone) - atomic.LoadInt32(&thrParked)
+		if running <= 0 {
+			break
+		}
+		time.Sleep(100 * time.Microsecond)
+	}
+	atomic.AddInt32(&thrParked, -1)
 }
 
 // Go starts a goroutine that waits for WaitAll's start signal.
 func Go(f func()) {
 	thrWG.Add(1)
 	start := thrStart
+	idx := int(atomic.AddInt32(&thrSpawned, 1))
 	go func() {
 		defer thrWG.Done()
+		defer atomic.AddInt32(&thrDone, 1)
+		thrIDs.Store(goid(), idx)
 		defer func() {
 			if r := recover(); r != nil {
 				switch r.(type) {
